@@ -1,9 +1,11 @@
 """C11 -- exactly one reply per admitted query, in time, whatever upstreams do.
 
-Thin entry point: the state-machine core lives in c11_core.run_core(ctx); the lead merges the
-engine/socket-level and scripted-authority-level drivers here.
+Core tier  : checks/c11_core.py (Dedup.tla on the real WaitGroup and the real Cache.ServeDNS under gated schedules).
+Engine tier: checks/c11_engine.py (UpFault.tla fault scripts played by scripted authorities against the real full
+             pipeline on real UDP+TCP sockets).
 """
 import c11_core
+import c11_engine
 
 
 def run(ctx, replay):
@@ -11,3 +13,4 @@ def run(ctx, replay):
         c11_core.replay_core(ctx, replay)
         return
     c11_core.run_core(ctx)
+    c11_engine.run_engine(ctx)
